@@ -115,14 +115,14 @@ def model(derive, kinds, shared_key, enum_rename):
     return out
 
 
-def gen_case(cid, derive, kinds, shared_key, enum_rename):
+def gen_case(cid, derive, kinds, shared_key, enum_rename, rename_first=False):
     attr = ATTR[derive]
     sh = SHARED[shared_key]
     eattrs = []
     if sh is not None:
         eattrs.append("#[%s(%s%s)]" % (attr, lit_rs(sh["lit"]), (", " + sh["args"]) if sh["args"] else ""))
     if enum_rename:
-        eattrs.append('#[%s(rename_all = "%s")]' % (attr, enum_rename))
+        eattrs.insert(0 if rename_first else len(eattrs), '#[%s(rename_all = "%s")]' % (attr, enum_rename))
     variants, twins = [], []
     for vi, k in enumerate(kinds):
         kd = KINDS[k]
@@ -198,12 +198,13 @@ def run(chk, tier):
                 if derive == "LowerHex" and not thorough and sk in ("v_v", "alias", "f0_dbg", "v_width", "escaped"):
                     continue
                 for rn in ((None, "snake_case") if derive == "Display" and any(not KINDS[k]["fields"] for k in kinds) else (None,)):
-                    c = gen_case("c%d" % len(cases), derive, list(kinds), sk, rn)
-                    if c is not None:
-                        cases.append(c)
+                    for first in ((False, True) if rn and SHARED[sk] is not None else (False,)):
+                        c = gen_case("c%d" % len(cases), derive, list(kinds), sk, rn, rename_first=first)
+                        if c is not None:
+                            cases.append(c)
     nrej = sum(1 for c in cases if c.expect == "fail")
     chk.part("space", programs=len(cases), expected_rejections=nrej, variant_kinds=kinds_alpha, shared_literals=list(SHARED), max_variants=maxv,
-             traits=["Display", "LowerHex", "Debug"], note="full product for <=2 variants (+ 3-variant products over 6 kinds in thorough); every value of every variant (3 values per field)")
+             traits=["Display", "LowerHex", "Debug"], attribute_orders="`rename_all` before and after the enum-level format attribute", note="full product for <=2 variants (+ 3-variant products over 6 kinds in thorough); every value of every variant (3 values per field)")
     eng = CompileEngine("C07", prelude=PRELUDE, per_bin=max(8, len(cases) // 24 + 1))
     results = eng.run_cases(cases)
     import re
